@@ -3,6 +3,7 @@
 # valid, nearly valid and random frames for the system PGNs, both ISO-TP roles, address claiming/commanded address, fast packets.
 # Because the group-function handlers are not part of the shared node model, no COMPLETE PGN 126208 message addressed to one of our
 # devices or broadcast is ever generated (see no_gf_frame / the reserved source GF_SRC); partial ones and ones to address 254 are.
+from nodesim import own_addr
 import random
 from nodegen import can_id, rx, fp_frames, sender_stream, tp_rts, tp_dt, tp_cm, iso_request, claim, FAST_PGNS, SINGLE_PGNS, REQ_PGNS, random_history
 
@@ -53,7 +54,7 @@ def no_gf_frame(idv, data):
 class Ctx:
     def __init__(self, r, ndev, src0, mode):
         self.r, self.ndev, self.src0, self.mode = r, ndev, src0, mode
-        self.own = [(src0 + i) & 255 for i in range(ndev)]
+        self.own = [own_addr(src0, i) for i in range(ndev)]
         self.extra = []               # addresses we may have moved to (commanded address)
         self.ops = []
         self.started = []             # (idev, pgn, peer) of ISO-TP sends started with S ... tp=1
